@@ -235,11 +235,69 @@ func drawElt(t *rapid.T, size int, edges [][]byte, label string) ([]byte, string
 	}
 }
 
+// drawRelated draws the second operand of a binary field operation: independent of x half of the
+// time, otherwise a value that shares most limbs with x or is a power-of-two pattern — borrow and
+// carry chains only run their full length when the operands agree on whole limbs.
+func drawRelated(t *rapid.T, xb []byte, edges [][]byte, label string) ([]byte, string) {
+	size := len(xb)
+	kind := rapid.IntRange(0, 9).Draw(t, label+".rel")
+	if kind < 5 {
+		return drawElt(t, size, edges, label)
+	}
+	y := append([]byte{}, xb...)
+	bits := size * 8
+	k := rapid.IntRange(0, bits-1).Draw(t, label+".k")
+	switch kind {
+	case 5: // x with one limb replaced by an edge value
+		i := rapid.IntRange(0, size/8-1).Draw(t, label+".limb")
+		e := rapid.SampledFrom([]uint64{0, 1, 1 << 63, ^uint64(0), ^uint64(0) - 1, 1<<32 - 1, 1 << 32}).Draw(t, label+".lv")
+		for j := 0; j < 8; j++ {
+			y[i*8+j] = byte(e >> (8 * j))
+		}
+		return y, "x-with-one-limb-replaced"
+	case 6: // x ± 2^k (mod 2^bits)
+		v := vlib.FromLE(xb)
+		d := new(big.Int).Lsh(big.NewInt(1), uint(k))
+		if rapid.Bool().Draw(t, label+".minus") {
+			v.Sub(v, d)
+		} else {
+			v.Add(v, d)
+		}
+		v.Mod(v, new(big.Int).Lsh(big.NewInt(1), uint(bits)))
+		return vlib.LE(v, size), "x±2^k"
+	case 7: // 2^k or 2^k-1
+		v := new(big.Int).Lsh(big.NewInt(1), uint(k))
+		if rapid.Bool().Draw(t, label+".m1") {
+			v.Sub(v, big.NewInt(1))
+		}
+		return vlib.LE(v, size), "2^k|2^k-1"
+	case 8:
+		return y, "y=x"
+	default: // the complement: x + y = 2^bits - 1
+		for i := range y {
+			y[i] = ^y[i]
+		}
+		return y, "y=~x"
+	}
+}
+
 func oneRound(t *rapid.T, tr *transcript) {
+	for rep := 0; rep < 3; rep++ {
+		fieldRound(t, tr)
+	}
+	restOfRound(t, tr)
+}
+
+func fieldRound(t *rapid.T, tr *transcript) {
 	// ---- fp25519 / fp448
 	{
 		xb, c1 := drawElt(t, fp25519.Size, p25519Edges, "fx")
-		yb, c2 := drawElt(t, fp25519.Size, p25519Edges, "fy")
+		if rapid.IntRange(0, 3).Draw(t, "fx0") == 0 { // zero and tiny first operands: x - y borrows through every limb
+			xb = make([]byte, fp25519.Size)
+			xb[0] = byte(rapid.IntRange(0, 2).Draw(t, "fxv"))
+			c1 = "tiny"
+		}
+		yb, c2 := drawRelated(t, xb, p25519Edges, "fy")
 		var x, y, z fp25519.Elt
 		copy(x[:], xb)
 		copy(y[:], yb)
@@ -272,7 +330,12 @@ func oneRound(t *rapid.T, tr *transcript) {
 	}
 	{
 		xb, c1 := drawElt(t, fp448.Size, nil, "gx")
-		yb, c2 := drawElt(t, fp448.Size, nil, "gy")
+		if rapid.IntRange(0, 3).Draw(t, "gx0") == 0 {
+			xb = make([]byte, fp448.Size)
+			xb[0] = byte(rapid.IntRange(0, 2).Draw(t, "gxv"))
+			c1 = "tiny"
+		}
+		yb, c2 := drawRelated(t, xb, nil, "gy")
 		var x, y, z fp448.Elt
 		copy(x[:], xb)
 		copy(y[:], yb)
@@ -294,7 +357,13 @@ func oneRound(t *rapid.T, tr *transcript) {
 		a, b := x, y
 		fp448.AddSub(&a, &b)
 		tr.emit("fp448.AddSub", cls, in, [][]byte{out(&a), out(&b)})
+		a = y
+		fp448.Modp(&a)
+		tr.emit("fp448.Modp+IsZero", cls, in, [][]byte{a[:], {b2b(fp448.IsZero(&y))}})
 	}
+}
+
+func restOfRound(t *rapid.T, tr *transcript) {
 	// ---- X25519 / X448
 	{
 		kb, c1 := drawElt(t, 32, nil, "xk")
